@@ -72,6 +72,11 @@ func extractKeyValue(keyvalue *commonpb.KeyValue) (string, interface{}, error) {
 }
 
 func extractAnyValue(anyValue *commonpb.AnyValue) (interface{}, error) {
+	if anyValue == nil {
+		// An absent value (e.g. a log record without a body) is valid OTLP.
+		return nil, nil
+	}
+
 	switch anyValue.Value.(type) {
 	case *commonpb.AnyValue_StringValue:
 		return anyValue.GetStringValue(), nil
